@@ -27,6 +27,12 @@ BWCore(p, nb) ==
           Sub(p, Pow2(64)), Sub(p, Pow2(8 * nb - 64)), Pow2(32), Sub(p, Pow2(32)) }, p)
 
 Fam(p, nb) == IF Tier = "quick" THEN BWCore(p, nb) ELSE BW(p, nb)
+\* operands of the one-operand routines (cheap: always the full boundary family), plus the values whose double hits the decision
+\* boundaries of the final conditional subtraction (top word of 2a equal to the modulus' top word, 2a = p -+ 1, carry out of the top bit)
+HalfTargets(p, nb) == Below({ ShiftR(s, 1) : s \in { Sub(p, One), Add(p, One), TopWordOf(p, nb, 64), Add(TopWordOf(p, nb, 64), Two), Sub(TopWordOf(p, nb, 64), Two),
+                                                      Add(TopWordOf(p, nb, 64), Pow2(64)), TopWordOf(p, nb, 32), Sub(Pow2(8 * nb), Two), Pow2(8 * nb - 1),
+                                                      Sub(Add(p, p), Two) } }, p)
+UnFam(p, nb) == BW(p, nb) \cup HalfTargets(p, nb)
 
 \* pairs whose sum (resp. difference) hits the decision boundaries of the final conditional subtraction
 SumTargets(p, nb) == { Sub(p, One), p, Add(p, One), TopWordOf(p, nb, 64), Add(TopWordOf(p, nb, 64), Pow2(64)),
@@ -39,7 +45,7 @@ FieldCases(f, p, nb) ==
   LET fam   == Fam(p, nb)
       pairs == (fam \X fam) \cup SumPairs(p, nb)
       bin(o, al) == { [op |-> o, f |-> f, a |-> LE(x[1], nb), b |-> LE(x[2], nb), alias |-> al, src |-> "gen"] : x \in pairs }
-      un(o, al)  == { [op |-> o, f |-> f, a |-> LE(x, nb), alias |-> al, src |-> "gen"] : x \in fam }
+      un(o, al)  == { [op |-> o, f |-> f, a |-> LE(x, nb), alias |-> al, src |-> "gen"] : x \in UnFam(p, nb) }
       exps  == { Zero, One, Two, Sub(p, Two), Sub(p, One), ShiftR(Sub(p, One), 1), Sub(Pow2(8 * nb), One), Pow2(8 * nb - 1) }
       ints  == fam \cup { p, Add(p, One), Sub(Pow2(8 * nb), One), Sub(Add(p, p), One), Add(p, p) }
       bytesfam == { Sub(p, One), p, Add(p, One), Sub(Pow2(8 * nb - 3), One), Pow2(8 * nb - 3), Sub(Pow2(8 * nb), One),
@@ -81,7 +87,7 @@ RawCases ==
      \o SetToSeq({ [op |-> "raw.cmp", a |-> LE(x[1], 48), b |-> LE(x[2], 48), src |-> "gen"] : x \in RawFam \X RawFam })
      \o SetToSeq({ [op |-> o, impl |-> im, a |-> LE(x[1], 48), b |-> LE(x[2], 48), p |-> LE(p, 48), alias |-> al, src |-> "gen"] :
                 o \in {"raw.fpadd", "raw.fpsub"}, im \in Impls, x \in (fam \X fam) \cup sums, al \in {0, 1} })
-     \o SetToSeq({ [op |-> "raw.fpdbl", impl |-> im, a |-> LE(x, 48), p |-> LE(p, 48), alias |-> al, src |-> "gen"] : im \in Impls, x \in fam, al \in {0, 1} })
+     \o SetToSeq({ [op |-> "raw.fpdbl", impl |-> im, a |-> LE(x, 48), p |-> LE(p, 48), alias |-> al, src |-> "gen"] : im \in Impls, x \in UnFam(p, 48), al \in {0, 1} })
      \o SetToSeq({ [op |-> "raw.mul", impl |-> im, a |-> LE(x[1], 48), b |-> LE(x[2], 48), src |-> "gen"] : im \in Impls, x \in RawFam \X RawFam })
      \o SetToSeq({ [op |-> "raw.sqr", impl |-> im, a |-> LE(x, 48), src |-> "gen"] : im \in Impls, x \in RawFam \cup fam })
      \o SetToSeq({ [op |-> "raw.redc", impl |-> im, w |-> LE(x, 96), p |-> LE(p, 48), inv |-> LE(inv, 48), src |-> "gen"] : im \in Impls, x \in wide })
